@@ -275,7 +275,7 @@ class Inliner(object):
                         raise NotInlinable("argument would move into a deferred scope")
         self.counter += 1
         h._inlined_somewhere = True
-        tag = "__%s%d" % (h.name.strip("_"), self.counter)
+        tag = "__i%d" % self.counter
         inner = {n: n + tag for n in _locals_of(h) if n not in bind}
         out = _Rename(inner).visit(copy.deepcopy(expr))
 
@@ -316,7 +316,7 @@ class Inliner(object):
         """Statements that evaluate the helper for this call, and the result variable."""
         self.counter += 1
         h._inlined_somewhere = True
-        tag = "__%s%d" % (h.name.strip("_"), self.counter)
+        tag = "__i%d" % self.counter
         bind, plist, pos, allp, kwonly = self.bind_args(h, recv, call)
         mapping = {n: n + tag for n in _locals_of(h)}
         pre = []
@@ -331,7 +331,13 @@ class Inliner(object):
             if isinstance(val, ast.Name) and val.id == p and p in ("self", "cls"):
                 mapping.pop(p, None)  # same receiver name: no rebinding needed
                 continue
-            if isinstance(val, (ast.Name, ast.Constant)) and p not in stored:
+            root = val
+            while isinstance(root, ast.Attribute):
+                root = root.value
+            module_const = isinstance(val, ast.Attribute) and isinstance(root, ast.Name) and \
+                root.id not in getattr(self, "_caller_locals", {"self", "cls"}) and \
+                root.id not in ("self", "cls")
+            if (isinstance(val, (ast.Name, ast.Constant)) or module_const) and p not in stored:
                 # a parameter the helper never rebinds, bound to a caller's name or a
                 # constant: read the caller's name directly (the helper cannot rebind it,
                 # its own locals are renamed apart)
@@ -370,6 +376,7 @@ class Inliner(object):
     def process_function(self, fnode, cls_name):
         first = fnode.args.args[0].arg if fnode.args.args else None
         changed = False
+        self._caller_locals = _locals_of(fnode) | {"self", "cls"}
 
         def rewrite_list(stmts):
             nonlocal changed
@@ -417,6 +424,25 @@ class Inliner(object):
 
         if isinstance(s, ast.Expr) and is_call(s.value):
             return s.value, (lambda e: None)
+        # evaluated exactly once before the statement's body: the iterable of a for loop, the
+        # test of an if (also under a single `not`)
+        if isinstance(s, ast.For) and is_call(s.iter):
+            def setter(e, s=s):
+                s.iter = e
+                return s
+            return s.iter, setter
+        if isinstance(s, ast.If):
+            if is_call(s.test):
+                def setter(e, s=s):
+                    s.test = e
+                    return s
+                return s.test, setter
+            if isinstance(s.test, ast.UnaryOp) and isinstance(s.test.op, ast.Not) and \
+                    is_call(s.test.operand):
+                def setter(e, s=s):
+                    s.test.operand = e
+                    return s
+                return s.test.operand, setter
         if isinstance(s, (ast.Assign, ast.Return, ast.AugAssign, ast.AnnAssign)) and \
                 getattr(s, "value", None) is not None:
             v = s.value
